@@ -14,6 +14,9 @@ POINTS = ["stack.loaded", "push.before_wt_merge", "exec.start", "exec.after_exte
           "crit.state_committed", "crit.before_edit", "crit.after_edit", "exec.after_crit"]
 
 
+NON_PROTOCOL_POINTS = {"extmods.prev_read"}
+
+
 class PointDir:
     def __init__(self, scratch, tag="pt"):
         self.path = scratch.path + "." + tag
@@ -28,7 +31,10 @@ class PointDir:
         p = os.path.join(self.path, "points.log")
         if not os.path.exists(p):
             return []
-        return [tuple(l.split()) for l in open(p).read().split("\n") if l]
+        # (points that exist only to pause a process for a race probe are not protocol points of the
+        # transaction model)
+        return [t for t in (tuple(l.split()) for l in open(p).read().split("\n") if l)
+                if len(t) < 2 or t[1] not in NON_PROTOCOL_POINTS]
 
     def ref_edits(self):
         p = os.path.join(self.path, "ref_edits.txt")
@@ -109,6 +115,22 @@ if [ "$n" = "$STGIT_SHIM_FAIL" ]; then
   echo "fatal: injected failure of git invocation $n ($1)" >&2
   exit 128
 fi
+if [ "$n" = "$STGIT_SHIM_INT_GROUP" ]; then
+  # one Ctrl-C for the whole foreground process group: stg gets it, and so does this child, which dies of it
+  kill -INT $PPID
+  sleep 0.3
+  exit 130
+fi
+if [ "$n" = "$STGIT_SHIM_KILL_BEFORE" ]; then
+  kill -KILL $PPID
+  exit 137
+fi
+if [ "$n" = "$STGIT_SHIM_KILL_AFTER" ]; then
+  "$STGIT_REAL_GIT" "$@"
+  rc=$?
+  kill -KILL $PPID
+  exit $rc
+fi
 exec "$STGIT_REAL_GIT" "$@"
 """
 
@@ -124,7 +146,7 @@ class GitShim:
             f.write(SHIM)
         os.chmod(path, 0o755)
 
-    def env(self, fail=None):
+    def env(self, fail=None, kill_before=None, kill_after=None, int_group=None):
         for f in ("count", "calls.log"):
             p = os.path.join(self.dir, f)
             if os.path.exists(p):
@@ -133,6 +155,12 @@ class GitShim:
              "STGIT_REAL_GIT": self.real}
         if fail is not None:
             e["STGIT_SHIM_FAIL"] = str(fail)
+        if kill_before is not None:
+            e["STGIT_SHIM_KILL_BEFORE"] = str(kill_before)
+        if kill_after is not None:
+            e["STGIT_SHIM_KILL_AFTER"] = str(kill_after)
+        if int_group is not None:
+            e["STGIT_SHIM_INT_GROUP"] = str(int_group)
         return e
 
     def calls(self):
